@@ -363,6 +363,10 @@ def libpass_settings(name, quick, seed):
             out.append({"rounds": r})
         for n in (1, 2, 8, 15, 16):
             out.append({"rounds": 1000, "salt": HS.make_salt("sha256_crypt", n, seed, n)})
+        # salts the API takes although crypt(3) would not write them (anything but '$', up to 16 characters): what the
+        # hasher makes from them, it reads back
+        for odd in ("my salt", "user:realm", "tab\there", "a!b#c%d", " ", "x" * 16):
+            out.append({"rounds": 1000, "salt": odd})
         # salts outside the format (too long, with the field separator): refused, or else whatever comes back verifies
         for bad in ("a" * 17, "ab$cd", "$", "a" * 64, "abcdefgh$"):
             out.append({"rounds": 1000, "salt": bad, "inadmissible": True})
